@@ -149,9 +149,9 @@ func (f famShape) String() string {
 
 func genFamShape(r *hx.Rng, idx int, thorough bool) famShape {
 	f := famShape{}
-	f.methods = r.Range(240, 420)
-	if thorough && r.Chance(1, 3) {
-		f.methods = r.Range(420, 900)
+	f.methods = r.Range(160, 320)
+	if thorough && r.Chance(1, 2) {
+		f.methods = r.Range(320, 900)
 	}
 	f.group = r.Range(2, 6)
 	f.shared = r.Range(8, 24)
@@ -472,8 +472,11 @@ func main() {
 	tmp, _ := os.MkdirTemp("", "c11fresh")
 	defer os.RemoveAll(tmp)
 	// fresh-process lattice: the limit-1 run must also agree with itself; 0 = GOMAXPROCS left at the default
-	flimits := []int{100, 16, 1}
-	fprocs := []int{0, 4}
+	type fset struct{ limit, procs int }
+	fsettings := []fset{{100, 0}, {16, 0}, {1, 0}, {100, 4}}
+	if o.Tier == "thorough" {
+		fsettings = append(fsettings, fset{16, 4}, fset{1, 4}, fset{100, 2})
+	}
 	for i, p := range progs {
 		if i < start {
 			continue
@@ -483,18 +486,25 @@ func main() {
 		var base outcome
 		file := filepath.Join(tmp, p.id+".elk")
 		run := func(l, pc int, load bool) outcome { return runOnce(p.id+".elk", p.src, l, pc, load) }
-		plimits, pprocs, preps := limits, procs, reps
+		preps := reps
+		var psettings []fset
+		for _, l := range limits {
+			for _, pc := range procs {
+				psettings = append(psettings, fset{l, pc})
+			}
+		}
 		if p.fresh {
 			os.WriteFile(file, []byte(p.src), 0644)
 			run = func(l, pc int, load bool) outcome { return runFresh(self, file, l, pc, load) }
-			plimits, pprocs, preps = flimits, fprocs, freps
+			psettings, preps = fsettings, freps
 		}
 		base = run(1, 1, false)
 		runs, res := 1, ""
 	settings:
 		for rep := 0; rep < preps; rep++ {
-			for _, l := range plimits {
-				for _, pc := range pprocs {
+			for _, st := range psettings {
+				{
+					l, pc := st.limit, st.procs
 					oc := run(l, pc, rep%2 == 1)
 					runs++
 					if kind, detail := compare(base, oc); kind != "" {
